@@ -1,5 +1,10 @@
 """work in progress (not part of any check): Feedback.__init__ - 877 paths, too slow and contract not yet right"""
 from pyvc.dsl import *
+from pedal.core.feedback import Feedback
+from pedal.core.report import Report
+from pedal.core.location import Location
+
+INSTANCE_CLASSES = [Feedback, Report, Location]
 
 @spec
 def opt(x, pred_str):
